@@ -1525,6 +1525,9 @@ void AsyncSim::quiesce() {
 			}
 			if (unacceptable && (f.arrive_seq > fresh.att.back().accepted_seq || f.read_seq == 0 || f.read_seq > fresh.att.back().accepted_seq)) { stream_corrupted = true; K.count("probe.fresh_request_met_late_error_pdu"); }
 		}
+		// ... and for a connection attempt of before (a delayed connect) that was still pending when the fresh request was added and
+		// then ran into the connect timeout: the request fails with it
+		if (!fresh.att.empty()) for (auto &cp : N.conns) if (cp->connect_seq && cp->connect_seq < fresh.att.back().accepted_seq && (cp->established_seq == 0 || cp->established_seq > fresh.att.back().accepted_seq) && cp->end_kind != "refused") { stream_corrupted = true; K.count("probe.fresh_request_met_pending_connect"); }
 		// ... also when a frame that claims more bytes than the server ever sent is still open: everything that follows is swallowed into it
 		for (auto &e : eps) if (!e.http) for (auto &cp : N.conns) if (cp->ep == e.net_ep && !cp->client_closed) {
 			auto it = e.conn_parsed.find(cp->idx);
